@@ -39,6 +39,7 @@ def units(tier, variant):
     out = [dict(kind='fresnel', n1=a, n2=b) for a in NS for b in NS if a != b]
     out += [dict(kind='element', family=f) for f in ('polarizers', 'diattenuator', 'retarder')]
     out += [dict(kind='dispersive', glass=g) for g in ('SF11', 'N-BK7', 'N-LASF9')]
+    out += [dict(kind='lens', word=[0, 1], mode=m, variant=variant, tilted=True) for m in ('uncoated', 'fresnel')]
     A = c04.alphabet(variant)[:6]
     depth = 2 if tier == 'quick' else 3
     for w in LZ.words(A, 1, depth):
@@ -284,6 +285,11 @@ def run_lens(part, unit):
     p = V(v)
     A = c04.alphabet(v)[:6]
     surfs = LZ.with_stop(LZ.fix_thickness_signs([A[i] for i in unit['word']]), 0)
+    if unit.get('tilted'):
+        # surfaces tilted about x and about y (a wedge and a tilted plate behind a lens)
+        g = ['ideal', 1.5, 0.0]
+        surfs = [S('sphere', R=p['R'], mat=g, t=5.0, stop=True), S('sphere', R=-p['R'], mat='air', t=6.0),
+                 S('plane', mat=g, t=4.0, rx=0.25, ry=-0.15), S('plane', mat='air', t=10.0, rx=-0.1, ry=0.2)]
     coated = unit['mode'] == 'fresnel'
     if coated:
         surfs = [dict(s, coating='fresnel') if s['mat'] != 'mirror' else s for s in surfs]
